@@ -88,7 +88,11 @@ pub fn bellerophon<F: RawFloat, const FORMAT: u128>(num: &Number, lossy: bool) -
     // Track errors to as a factor of unit in last-precision.
     let mut errors: u32 = 0;
     if num.many_digits {
-        errors += error_halfscale();
+        // The mantissa was truncated, so the value is off by up to 1 unit
+        // of the unnormalized mantissa, which is up to `2^64 / mantissa`
+        // units in the last place once the mantissa is normalized.
+        let ulps = (u64::MAX / num.mantissa).saturating_add(1).min(1 << 20) as u32;
+        errors += ulps * error_scale();
     }
 
     // Multiply by the small power.
@@ -271,6 +275,11 @@ fn error_is_accurate<F: RawFloat>(errors: u32, fp: &ExtendedFloat80) -> bool {
         // Round-to-nearest, need to check if we're close to halfway.
         // IE, b10100 | 100000, where `|` signifies the truncation point.
         let halfway = lower_n_halfway(maskbits);
+        if errors >= halfway {
+            // The error interval spans the halfway point no matter the value
+            // of the truncated bits (and the subtraction below would wrap).
+            return false;
+        }
         let cmp1 = halfway.wrapping_sub(errors) < extra;
         let cmp2 = extra < halfway.wrapping_add(errors);
 
